@@ -488,6 +488,11 @@ def reentrant_case(ctx, case):
     with vnet.installed(world):
         conn, o = servers.make_connection(world, allowed_versions={version})
 
+        forced = []
+        force_at = case.get('force_at')
+        if force_at is not None:
+            force_at = force_at % n if case['oe'] else None
+
         def queue_all(p):
             for i in range(n):
                 conn.write_packet(sb.play.ChatPacket(message='m%d' % i))
@@ -498,6 +503,15 @@ def reentrant_case(ctx, case):
                 if type(packet).__name__ != 'ChatPacket':
                     return
                 log.append((world.next_seq(), cls, k, packet.message))
+                if cls == 'oe' and force_at is not None and \
+                        k == case.get('force_who', 0) % len(case['oe']) and \
+                        packet.message == 'm%d' % force_at and not forced:
+                    # an early outgoing listener reacts to a packet by
+                    # writing another one at once (the write lock is
+                    # re-entrant for exactly this)
+                    forced.append(1)
+                    conn.write_packet(sb.play.ChatPacket(message='w'),
+                                      force=True)
                 if cls == 'oo' and k == case['who'] % len(case['oo']) and \
                         packet.message == 'm%d' % d and not did:
                     did.append(1)
@@ -533,6 +547,11 @@ def reentrant_case(ctx, case):
     got = [servers.decode(version, 'sb_chat', pl)['message']
            for pid, pl in srv.other_play_frames if pid == chat_id]
     want = ['m%d' % i for i in range(n)]
+    if force_at is not None:
+        # written from inside the early stage of m<force_at>: it goes out
+        # right before that packet, and nothing queued overtakes either
+        want.insert(force_at, 'w')
+        ctx.label('reentrant_forced_write')
     if got != want:
         ctx.fail('reentrant', 'D3-frames-on-wire', case, got, want)
         return
@@ -548,7 +567,7 @@ def reentrant_case(ctx, case):
                   if st_ == 'play' and pid == chat_id]
     for i, (a, b) in enumerate(chat_spans):
         ss = [s_ for s_, x, y in sends if x < b and y > a]
-        msg = 'm%d' % i
+        msg = want[i]
         calls = [(s_, cls, k) for s_, cls, k, m in log if m == msg]
         want_calls = [('oe', k) for k in range(len(case['oe']))] + \
             [('oo', k) for k in range(len(case['oo']))]
@@ -817,6 +836,12 @@ def t_reentrant(ctx, n):
                                      'oo': ['SbChat', 'Packet'],
                                      'who': d % 2, 'compress':
                                      [None, 0, 64][d % 3]})
+                for fa in range(nn):
+                    reentrant_case(ctx, {'version': v, 'n': nn, 'd': d,
+                                         'oe': ['SbChat', 'Packet'],
+                                         'oo': ['Packet'], 'who': 0,
+                                         'force_at': fa, 'force_who': fa % 2,
+                                         'compress': None})
     ctx.exhaustive_done('re-entrant disconnect: 3 protocols x 1-5 queued '
                         'packets x every position')
     strat = st.fixed_dictionaries({
@@ -826,6 +851,8 @@ def t_reentrant(ctx, n):
         'oo': st.lists(st.sampled_from(['Packet', 'SbChat']), min_size=1,
                        max_size=3),
         'who': st.integers(0, 2),
+        'force_at': st.one_of(st.none(), st.integers(0, 7)),
+        'force_who': st.integers(0, 2),
         'compress': st.sampled_from([None, 0, 64])})
 
     def body(c, case):
